@@ -415,6 +415,15 @@ impl BootstrapManager {
     }
 }
 
+/// Verification hooks (C13): read-only view of the admission counters.
+#[cfg(feature = "verif-hooks")]
+impl BootstrapManager {
+    /// Diversity statistics of the manager's enforcer.
+    pub fn verif_diversity_stats(&self) -> crate::security::DiversityStats {
+        self.diversity_enforcer.lock().get_diversity_stats()
+    }
+}
+
 /// Bootstrap cache statistics
 #[derive(Debug, Clone, Default)]
 pub struct BootstrapStats {
